@@ -60,6 +60,14 @@ CLAIMED['C02'] = ('TLC-generated models; design-level RoundTripButRefOrder / Fix
                   'parsed and the API-built database against it; pinned as-built deviations are named actions with guards',
                   'trusted: TLC, pv/builder.py, pv/project.py, pv/surface.py',
                   'DESIGN.md 2.5, 5 (C02), 7')
+CLAIMED['C13'] = ('Lexis.tla (lexer, writer, Norm, renderer escaping over character sequences) model-checked on ALL texts up to a '
+                  'length bound over the critical alphabet; every text x 12 sites x 3 styles authored and x 12 sites rendered, executed on '
+                  '/repo and validated by TLC (TraceLexis.tla)',
+                  'writer/lexer inverse, Norm idempotence and renderer-literal inverse are TLC invariants over the complete text space '
+                  '(4 681 texts of length <= 4 quick, 37 449 <= 5 thorough); the same texts are pushed through the real parser and '
+                  'renderer at every text-bearing site; the SQL literal clause is decided by the SQL checks',
+                  'trusted: TLC, fixed host documents in pv/c13.py; alphabet and length bound limit the universal quantifier',
+                  'DESIGN.md 2.7, 4.5, 5 (C13)')
 NOT_YET = {}
 
 def main():
